@@ -101,6 +101,21 @@ PRAGMA_TOKENS = ["#pragma x", "#pragma", "# pragma once", "#\tpragma pack(1)",
 
 # incl. whitespace-only lines (a line of blanks counts as exactly one line)
 BLANK_LINE_SEPARATORS = ["\n  \n", "\n\t\n ", " \n \t \n\n  "]
+# file names of #line directives / linemarkers, raw text between the outer
+# quotes (what cpp emits for files with '"' or a backslash in their name): the
+# name is delimited the way the string-literal token rule delimits it
+DIRECTIVE_FILE_NAMES = [
+    "we" + BS + '"ird.c',                 # escaped quote
+    "a" + BS + BS + "b.c",                # escaped backslash
+    "dir" + BS + BS,                      # escaped backslash at the very end
+    "say " + BS + '"hi' + BS + '".h',     # two escaped quotes and a blank
+    "q" + BS + BS + BS + '"z',            # escaped backslash, then escaped quote
+    "a b.c",                              # blank
+    "a" + BS + "nb",                      # escape-looking text, literally backslash n
+    "a" + BS + '"',                       # ends in an escaped quote (signed separately)
+]
+NAME_ENDING_IN_ESCAPED_QUOTE = len(DIRECTIVE_FILE_NAMES) - 1
+
 SEPARATORS_QUICK = ["", " ", "\n", "\t"] + BLANK_LINE_SEPARATORS
 SEPARATORS_THOROUGH = ["", " ", "\n", "\t", "  ", " \n  ", "\n\n"] + BLANK_LINE_SEPARATORS
 SEPARATORS_TRIPLE = ["", " ", "\n"]
